@@ -1144,6 +1144,20 @@ fn main() {
                         }
                     }
                 }
+                // body structures of 1..40 nesting levels, every kind of nesting (around the nesting budget)
+                for d in 1..=40usize {
+                    if d % shards != shard {
+                        continue;
+                    }
+                    for (input, _label) in vh_proto::parsecommon::nesting_boundary_inputs(d) {
+                        match prop.as_str() {
+                            "C02" => oracle_c02_pair(&mut ctx, &input, b"* 1 EXISTS\r\n", "nesting-boundary"),
+                            "C09" => oracle_c09(&mut ctx, &input, "nesting-boundary"),
+                            _ => { oracle_c01(&mut ctx, &input, "nesting-boundary"); }
+                        }
+                        ctx.log.count("nesting-boundary");
+                    }
+                }
                 let sh = shards as u64;
                 match prop.as_str() {
                     "C01" => {
